@@ -48,14 +48,20 @@ def combined_oracle(cfg, lines, impl, rep, case):
     except StopIteration:
         return
     exp, mode, bufs = [], None, None
+    heads, names = [], None
     for l in lines[start:]:
         if cfg.d["mergeConflicts"] and mode is None and l.startswith("++<<<<<<<") and l[9:].strip():
             mode, bufs = "ours", dict(ours=[], anc=[], theirs=[])
+            names = dict(ours=l[9:].strip(), anc=None)
         elif mode in ("ours",) and l.startswith("++|||||||") and l[9:].strip():
             mode = "anc"
+            names["anc"] = l[9:].strip()
         elif mode in ("ours", "anc") and l.startswith("++======="):
             mode = "theirs"
         elif mode and l.startswith("++>>>>>>>") and l[9:].strip():
+            # the two comparisons are headed by the commit names; "ancestor ⟶ name" only if THIS region has an ancestral section
+            for nm in (names["ours"], l[9:].strip()):
+                heads.append(("ancestor " + cfg.d["rightArrow"] + " " + nm) if names["anc"] is not None else nm)
             for side in ("ours", "theirs"):
                 exp += [("minus", mark("minus") + ex(x[2:])) for x in bufs["anc"]]
                 exp += [("plus", mark("plus") + ex(x[2:])) for x in bufs[side]]
@@ -71,6 +77,9 @@ def combined_oracle(cfg, lines, impl, rep, case):
             exp.append((kind, pre + ex(l[2:])))
     if mode:
         return                                      # unterminated region: out of the oracle's domain
+    got_heads = [" ".join(t.split()) for k, t in impl.rows if k == "mcHeader"]
+    if got_heads != [" ".join(h.split()) for h in heads]:
+        rep.violation("conflict-region-headers", f"conflict region headers: got {got_heads!r}, want {heads!r}", case)
     norm = lambda rows: [(k, t.rstrip(" ")) for k, t in rows if t.strip(" ")]
     got = norm([(k, t) for k, t in impl.rows if k in ("minus", "plus", "zero")])
     exp = norm(exp)
